@@ -58,6 +58,7 @@ inductive BOp
   | get (c : Nat) (k : Bytes)
   | keys (c : Nat)
   | flush (c : Nat)
+  | endFault (c : Nat)      -- end of a writing session whose first write of the exit flush raises
 deriving Repr
 
 def getB (bw : BWorld) (c : Nat) : Option Backend := bw.bs c
@@ -169,6 +170,15 @@ def bstep (bw : BWorld) : BOp → BWorld × BOut
     match getB bw c with
     | none => (bw, .err .noBackend)
     | some b => flush bw c b
+  | .endFault c =>
+    match getB bw c with
+    | none => (bw, .err .noBackend)
+    | some b =>
+      -- `flush()` pops the first pair, `_write` raises: the pair is lost, the rest stays queued; then the
+      -- (repaired) context manager still runs `end_write` (close) and resets the state
+      let q' := b.queue.drop 1
+      (setB { bw with w := (step bw.w (.close b.slot)).1 } c (some { b with queue := q', state := .idle }),
+       if b.queue.isEmpty then .ok else .err .noSession)
 
 def initB : BWorld := { w := initWorld, bs := fun _ => none }
 
